@@ -172,9 +172,20 @@ def check_obligations(rep, pid, extra_targets=()):
         return False
     closed = out.count("Closed under the global context")
     axioms = set()
-    for blk in re.findall(r"Axioms:\n((?:.+\n?)+?)(?=\n\S|\Z)", out):
-        for m in re.finditer(r"^([A-Za-z_][A-Za-z0-9_.']*)\s*:", blk, re.M):
-            axioms.add(m.group(1))
+    in_block = False
+    for line in out.split("\n"):
+        if line.strip() == "Axioms:":
+            in_block = True
+            continue
+        if line.startswith("Closed under") or not line.strip():
+            in_block = False if line.startswith("Closed under") else in_block
+            continue
+        if in_block and not line[0].isspace():
+            m = re.match(r"^([A-Za-z_][A-Za-z0-9_.']*)\s*(:.*)?$", line)
+            if m:
+                axioms.add(m.group(1))
+            else:
+                in_block = False
     naxblocks = out.count("Axioms:")
     rep.cov["axioms"] = sorted(axioms)
     rep.cov["print_assumptions_blocks"] = closed + naxblocks
@@ -222,7 +233,7 @@ def coq_eval_cases(vfile, timeout=3000):
     if not m:
         return False, None, out
     body = m.group(1).strip()
-    if body == "[]":
+    if "".join(body.split()) in ("[]", "([],[])"):
         return True, [], out
     ids = [int(x) for x in re.findall(r"\((\d+)%nat,", body)]
     return True, ids, body
